@@ -1,12 +1,17 @@
 // C29 — history navigation visits matching commands newest-first, then back.
 // M: MCHistWalk: exhaustive small model of a session (stored commands, session additions, additions by
-//    other sessions, deletions, cursors with/without de-duplication); the code-shaped cursor algorithm
-//    must agree with the declarative walk over the session's view in every reachable state.
+//
+//	other sessions, deletions, cursors with/without de-duplication); the code-shaped cursor algorithm
+//	must agree with the declarative walk over the session's view in every reachable state.
+//
 // G: every transition of that model (one path to its source state + the step, each step with the Get
-//    result the specification prescribes) is replayed on histutil.NewHybridStore over a real
-//    store.DBStore, with its cursor / NewDedupCursor; Get is compared after every step.
+//
+//	result the specification prescribes) is replayed on histutil.NewHybridStore over a real
+//	store.DBStore, with its cursor / NewDedupCursor; Get is compared after every step.
+//
 // V: long random histories and walks on the real hybrid store are recorded and judged event by
-//    event by the stateful TLC walker TraceHistWalk.
+//
+//	event by the stateful TLC walker TraceHistWalk.
 package main
 
 import (
@@ -24,16 +29,20 @@ import (
 
 func main() { lib.Main("C29", run) }
 
-type bounds struct{ stored, session, foreign, del int }
+// bounds of one model: texts T3 = {a, ab, b}, T2 = {a, ab}; prefixes P3 = {"", a, ab}, P2 = {"", ab}
+type bounds struct {
+	stored, session, foreign, del int
+	texts, prefixes               string
+}
 
 func (b bounds) String() string {
-	return fmt.Sprintf("stored<=%d session<=%d foreign<=%d deletes<=%d", b.stored, b.session, b.foreign, b.del)
+	return fmt.Sprintf("stored<=%d session<=%d foreign<=%d deletes<=%d texts=%s prefixes=%s", b.stored, b.session, b.foreign, b.del, b.texts, b.prefixes)
 }
 
 func cfg(b bounds, emit bool) []byte {
-	s := fmt.Sprintf("CONSTANTS MaxStored = %d MaxSession = %d MaxForeign = %d MaxDel = %d\nSPECIFICATION Spec\nVIEW View\n"+
+	s := fmt.Sprintf("CONSTANTS MaxStored = %d MaxSession = %d MaxForeign = %d MaxDel = %d Texts <- %s PrefixPool <- %s\nSPECIFICATION Spec\nVIEW View\n"+
 		"INVARIANT AlgIsWalk\nINVARIANT ViewProps\nINVARIANT ForeignInvisible\nINVARIANT SessionAboveUpper\nINVARIANT PosInRange\nINVARIANT EndsIdempotent\n",
-		b.stored, b.session, b.foreign, b.del)
+		b.stored, b.session, b.foreign, b.del, b.texts, b.prefixes)
 	if emit {
 		s += "ACTION_CONSTRAINT EmitT\n"
 	}
@@ -62,20 +71,6 @@ func run(c *lib.Ctx) error {
 		return err
 	}
 
-	// ---- M + G
-	gen := []bounds{{2, 1, 0, 1}}
-	var mOnly []bounds
-	if c.Thorough() {
-		gen = []bounds{{2, 1, 1, 1}, {1, 2, 1, 1}}
-		mOnly = []bounds{{2, 2, 1, 1}}
-	} else {
-		gen = append(gen, bounds{1, 1, 1, 1})
-	}
-	var bs []string
-	for _, b := range append(append([]bounds{}, gen...), mOnly...) {
-		bs = append(bs, b.String())
-	}
-	c.Set("bounds", map[string]any{"texts": "a, ab, b", "prefixes": "\"\", a, ab", "dedup": "both", "walk_length": "unbounded (position is state)", "models": bs})
 	var wg sync.WaitGroup
 	var mu sync.Mutex
 	var firstErr error
@@ -86,11 +81,66 @@ func run(c *lib.Ctx) error {
 		}
 		mu.Unlock()
 	}
+	// ---- V: random histories and walks on the real hybrid store over store.NewStore-compatible db
+	nh, steps := c.Pick(100, 1500), c.Pick(150, 200)
+	hist := make([][]Event, nh)
+	lib.Parallel(nh, 4, func(h int) {
+		rng := newRand(c.Seed*100003 + int64(h))
+		st, err := storex.OpenNoSync(storex.DBPath(scratch, 1_000_000+h))
+		if err != nil {
+			fail(lib.Infra("open store: %v", err))
+			return
+		}
+		defer func() { st.Close(); os.Remove(storex.DBPath(scratch, 1_000_000+h)) }()
+		hist[h] = randomHistory(c, rng, st, steps)
+	})
+	if firstErr != nil {
+		return firstErr
+	}
+	if len(hist) > 0 && len(hist[0]) > 8 {
+		c.Sample(hist[0][:8])
+	}
+	wg.Add(1)
+	go func() {
+		defer wg.Done()
+		if err := judge(c, dir, "TraceHistWalk(V)", append(probeHist, hist...)); err != nil {
+			fail(err)
+			return
+		}
+		c.AddTraces(nh + len(probeHist))
+	}()
+
+	// ---- M + G
+	gen := []bounds{{2, 1, 0, 0, "T3", "P3"}, {1, 1, 1, 1, "T2", "P2"}}
+	var mOnly []bounds
+	if c.Thorough() {
+		gen = []bounds{{1, 1, 1, 1, "T3", "P3"}, {2, 1, 0, 1, "T3", "P3"}, {1, 2, 1, 1, "T2", "P2"}, {2, 1, 1, 1, "T2", "P2"}}
+		mOnly = []bounds{{2, 2, 1, 1, "T3", "P3"}}
+	}
+	// at most 8 TLC workers at a time
+	sem := make(chan struct{}, 8)
+	acquire := func(n int) {
+		for i := 0; i < n; i++ {
+			sem <- struct{}{}
+		}
+	}
+	release := func(n int) {
+		for i := 0; i < n; i++ {
+			<-sem
+		}
+	}
+	var bs []string
+	for _, b := range append(append([]bounds{}, gen...), mOnly...) {
+		bs = append(bs, b.String())
+	}
+	c.Set("bounds", map[string]any{"texts": "T3 = a, ab, b; T2 = a, ab", "prefixes": "P3 = \"\", a, ab; P2 = \"\", ab", "dedup": "both", "walk_length": "unbounded (position is state)", "models": bs})
 	for _, b := range mOnly {
 		wg.Add(1)
 		go func(b bounds) {
 			defer wg.Done()
-			r, err := c.TLC("MCHistWalk(M "+b.String()+")", lib.TLCRun{Dir: dir, Module: "MCHistWalk", Workers: 3, Timeout: 13 * time.Minute, HeapGB: 8,
+			acquire(4)
+			defer release(4)
+			r, err := c.TLC("MCHistWalk(M "+b.String()+")", lib.TLCRun{Dir: dir, Module: "MCHistWalk", Workers: 4, Timeout: 13 * time.Minute, HeapGB: 8,
 				Files: map[string][]byte{"MCHistWalk.cfg": cfg(b, false)}})
 			if err != nil {
 				fail(err)
@@ -107,23 +157,27 @@ func run(c *lib.Ctx) error {
 		wg.Add(1)
 		go func(gi int, b bounds) {
 			defer wg.Done()
-			r, err := c.TLC("MCHistWalk(G "+b.String()+")", lib.TLCRun{Dir: dir, Module: "MCHistWalk", Workers: 3, Timeout: 13 * time.Minute, HeapGB: 8,
+			acquire(2)
+			r, err := c.TLC("MCHistWalk(G "+b.String()+")", lib.TLCRun{Dir: dir, Module: "MCHistWalk", Workers: 2, Timeout: 13 * time.Minute, HeapGB: 8,
 				Files: map[string][]byte{"MCHistWalk.cfg": cfg(b, true)}})
 			if err != nil {
+				release(2)
 				fail(err)
 				return
 			}
 			if r.ErrKind != "" {
+				release(2)
 				fail(lib.Infra("the walk model violates its own property %s %s (candidate: the cursor algorithm as modelled disagrees with the declarative walk):\n%s", r.ErrKind, r.ErrName, r.ErrTrace))
 				return
 			}
 			lines := r.PrintedStrings()
+			defer release(2)
 			c.Logf("G %s: %d distinct states, %d transitions, %d behaviours emitted", b, r.Distinct, r.Generated, len(lines))
 			if int64(len(lines)) < r.Generated-1 {
 				fail(lib.Infra("TLC generated %d transitions but emitted %d behaviours", r.Generated, len(lines)))
 				return
 			}
-			const W = 4
+			const W = 2
 			lib.Parallel(W, W, func(w int) {
 				rs, err := storex.OpenReusable(storex.DBPath(scratch, gi*100+w))
 				if err != nil {
@@ -155,19 +209,6 @@ func run(c *lib.Ctx) error {
 		}(gi, b)
 	}
 
-	// ---- V: random histories and walks on the real hybrid store over store.NewStore-compatible db
-	nh, steps := c.Pick(60, 1500), c.Pick(150, 200)
-	hist := make([][]Event, nh)
-	lib.Parallel(nh, 4, func(h int) {
-		rng := newRand(c.Seed*100003 + int64(h))
-		st, err := storex.OpenNoSync(storex.DBPath(scratch, 1_000_000+h))
-		if err != nil {
-			fail(lib.Infra("open store: %v", err))
-			return
-		}
-		defer func() { st.Close(); os.Remove(storex.DBPath(scratch, 1_000_000+h)) }()
-		hist[h] = randomHistory(c, rng, st, steps)
-	})
 	wg.Wait()
 	if firstErr != nil {
 		return firstErr
@@ -175,13 +216,6 @@ func run(c *lib.Ctx) error {
 	c.AddTraces(nb)
 	c.Set("exhaustive", true)
 	c.Set("g_behaviours", nb)
-	if len(hist) > 0 && len(hist[0]) > 8 {
-		c.Sample(hist[0][:8])
-	}
-	if err := judge(c, dir, "TraceHistWalk(V)", append(probeHist, hist...)); err != nil {
-		return err
-	}
-	c.AddTraces(nh)
 	c.Assume("TLC trusted; texts are token sequences (a, b, NUL+0xff, ' c', e-acute) mapped 1:1 to strings, prefix relation preserved; the database under the hybrid store is the real bbolt-backed store opened with NoSync (durability is C25); deleting a command below the frozen bound while a cursor is live makes that cursor's later results Unspecified (not compared); deleting a command added by this session and failing databases are outside the model; a cursor's view is the session's view at the moment the cursor is made")
 	return nil
 }
